@@ -189,6 +189,8 @@ type streamGRPC struct {
 	ctx             context.Context
 	done            <-chan struct{} // ctx.Done()
 	wg              sync.WaitGroup
+	mu              sync.Mutex // orders the wg.Add of a stream call before the wg.Wait of close
+	closed          bool       // the handler has returned
 	handler         *handler
 	codec           Codec      // both read and write
 	comp            Compressor // both read and write
@@ -211,6 +213,26 @@ func (s *streamGRPC) isDone() error {
 	}
 }
 
+// begin registers a call of a stream method. A call that starts after the
+// handler has returned (a goroutine the handler left behind) is refused.
+func (s *streamGRPC) begin() error {
+	s.mu.Lock()
+	defer s.mu.Unlock()
+	if s.closed {
+		return status.FromContextError(context.Canceled).Err()
+	}
+	s.wg.Add(1)
+	return nil
+}
+
+// close waits for the stream calls in flight; none can begin afterwards.
+func (s *streamGRPC) close() {
+	s.mu.Lock()
+	s.closed = true
+	s.mu.Unlock()
+	s.wg.Wait()
+}
+
 func (s *streamGRPC) SetHeader(md metadata.MD) error {
 	if s.sentHeader {
 		return fmt.Errorf("already sent headers")
@@ -219,7 +241,9 @@ func (s *streamGRPC) SetHeader(md metadata.MD) error {
 	return nil
 }
 func (s *streamGRPC) SendHeader(md metadata.MD) error {
-	s.wg.Add(1)
+	if err := s.begin(); err != nil {
+		return err
+	}
 	defer s.wg.Done()
 
 	if err := s.isDone(); err != nil {
@@ -278,7 +302,9 @@ func (s *streamGRPC) compress(dst *bytes.Buffer, b []byte) error {
 }
 
 func (s *streamGRPC) SendMsg(m interface{}) error {
-	s.wg.Add(1)
+	if err := s.begin(); err != nil {
+		return err
+	}
 	defer s.wg.Done()
 
 	if err := s.isDone(); err != nil {
@@ -372,7 +398,9 @@ func (s *streamGRPC) decompress(dst *bytes.Buffer, b []byte) error {
 }
 
 func (s *streamGRPC) RecvMsg(m interface{}) error {
-	s.wg.Add(1)
+	if err := s.begin(); err != nil {
+		return err
+	}
 	defer s.wg.Done()
 
 	if err := s.isDone(); err != nil {
@@ -578,7 +606,7 @@ func (m *Mux) serveGRPC(w http.ResponseWriter, r *http.Request) {
 	// Sync handler return to stream methods.
 	defer func() {
 		cancel()
-		stream.wg.Wait()
+		stream.close()
 	}()
 
 	herr := hd.handler(&m.opts, stream)
